@@ -80,9 +80,12 @@ class YowLayer(object):
 
     def toLower(self, data):
         self.lock.acquire()
-        if self.__lower:
-            self.__lower.send(data)
-        self.lock.release()
+        try:
+            if self.__lower:
+                self.__lower.send(data)
+        finally:
+            # an error in a lower layer must not leave this layer locked for every later sender
+            self.lock.release()
 
     def emitEvent(self, yowLayerEvent):
         if self.__upper and not self.__upper.onEvent(yowLayerEvent):
